@@ -25,6 +25,19 @@ func corpus(c *corr.Ctx) {
 	runAsyncDet(c, &AsyncCase{Kind: "async", Size: 8, Ops: []AOp{{K: "push", ID: 1}, {K: "start"}, {K: "closebegin"}, {K: "closeend"}}}, "corpus-close-before-error")
 }
 
+// guarded runs one case and turns a panic of the code under test (in the calling goroutine) into a
+// violation with the case as failing input.
+func guarded(c *corr.Ctx, in any, where string, f func()) {
+	defer func() {
+		if e := recover(); e != nil {
+			sawPanic.Store(true)
+			report(c, corr.Violation{Property: "C16", Clause: "queue operations do not panic", Key: "panic", Where: where, Input: in,
+				Detail: fmt.Sprintf("panic: %v", e)})
+		}
+	}()
+	f()
+}
+
 // Run is the domain entry point.
 func Run(c *corr.Ctx) {
 	c.Rule("sequential: every op sequence over {push,pull,close,reset} of a fixed length for capacities 1,2,4 (exhaustive) + random sequences up to 10^4 ops for capacities 1..256 with fill/drain phases, compared line by line (result + cursors + occupancy) with the Lean model; " +
@@ -54,6 +67,13 @@ func Run(c *corr.Ctx) {
 	}
 	corpus(c)
 	newSweep(c)
+	stop := func(stage string) bool {
+		if !enough() {
+			return false
+		}
+		c.Note(fmt.Sprintf("stopped after the %s: %d violations, %d time-outs, panic seen: %v (recorded above); a queue this broken makes the remaining cases slow or fatal", stage, nViol.Load(), stuckCount.Load(), sawPanic.Load()))
+		return true
+	}
 	// (a) exhaustive
 	L := c.N(6, 8)
 	for _, size := range []uint64{1, 2, 4} {
@@ -69,55 +89,56 @@ func Run(c *corr.Ctx) {
 	}
 	c.Exhaustive()
 	// (a) random
-	for i, n := 0, c.N(150, 3000); i < n; i++ {
+	for i, n := 0, c.N(150, 3000); i < n && nViol.Load() < 5000; i++ {
 		maxLen := 300
 		if i%10 == 0 {
 			maxLen = 10000
 		}
 		runSeq(c, genRandomSeq(c, maxLen), "random")
 	}
-	if sawPanic.Load() {
-		c.Note("a ring operation panicked in a sequential case (recorded as a violation); Processor and concurrent cases were skipped")
+	if stop("sequential part") {
 		return
 	}
 	for _, size := range []uint64{1, 2, 8, 256} {
 		for _, pre := range []int{0, 1, 3, 255} {
-			checkBlockingPull(c, size, pre, false)
-			checkBlockingPull(c, size, pre, true)
+			in := map[string]any{"kind": "blocking-pull", "size": size, "prefill": pre}
+			guarded(c, in, "pkg/ringbuffer", func() { checkBlockingPull(c, size, pre, false) })
+			guarded(c, in, "pkg/ringbuffer", func() { checkBlockingPull(c, size, pre, true) })
 		}
 	}
-	// deterministic Processor schedules
-	for i, n := 0, c.N(1500, 40000); i < n; i++ {
-		if tooStuck() {
-			break
-		}
-		runAsyncDet(c, genAsyncCase(c), "async-det")
+	if stop("blocking-Pull cases") {
+		return
 	}
-	// (b) concurrent, black box
-	for i, n := 0, c.N(150, 3000); i < n; i++ {
-		if tooStuck() {
-			break
-		}
+	// (b) concurrent, black box, on the ring (worker goroutines recover panics)
+	for i, n := 0, c.N(150, 3000); i < n && !enough(); i++ {
 		runConcRing(c, genConc(c, "conc", true), budget)
 	}
-	for i, n := 0, c.N(6, 60); i < n && !tooStuck(); i++ {
+	for i, n := 0, c.N(6, 60); i < n && !enough(); i++ {
 		runConcRing(c, genConc(c, "conc", false), budget)
 	}
-	for i, n := 0, c.N(150, 3000); i < n; i++ {
-		if tooStuck() {
-			break
-		}
+	if stop("concurrent ring cases") {
+		return
+	}
+	// deterministic Processor schedules
+	for i, n := 0, c.N(1500, 40000); i < n && !enough(); i++ {
+		ac := genAsyncCase(c)
+		guarded(c, ac, "internal/asyncprocessor", func() { runAsyncDet(c, ac, "async-det") })
+	}
+	if stop("deterministic Processor cases") {
+		return
+	}
+	// (b) concurrent, black box, on the Processor
+	for i, n := 0, c.N(150, 3000); i < n && !enough(); i++ {
 		cc := genConc(c, "aconc", true)
 		if c.Rng.IntN(3) == 0 {
 			cc.FailAt = (1+c.Rng.IntN(cc.Producers))*1000000 + 1 + c.Rng.IntN(cc.PerProducer)
 		}
 		runConcAsync(c, cc, budget)
 	}
-	for i, n := 0, c.N(6, 60); i < n && !tooStuck(); i++ {
+	for i, n := 0, c.N(6, 60); i < n && !enough(); i++ {
 		runConcAsync(c, genConc(c, "aconc", false), budget)
 	}
-	if tooStuck() {
-		c.Note("several operations blocked (time-outs recorded as violations); the remaining blocking-prone cases were skipped")
+	if stop("concurrent Processor cases") {
 		return
 	}
 	raceTier(c)
